@@ -65,17 +65,20 @@ def o_pubcomp(ad, a, b, c):
     return [("rx", ad, "PUBCOMP", [0, 0, 0, 1, 2, 3, 4, 5][a % 8], b, c)]
 
 
+SELS2 = [0, 0, 0, 1, 2, 3, 4, 6]        # with "the id of an outstanding request of another kind"
+
+
 def o_suback(ad, a, b, c):
-    return [("rx", ad, "SUBACK", SELS[a % 8], b, c if c < 128 else 0)]
+    return [("rx", ad, "SUBACK", SELS2[a % 8], b, c if c < 128 else 0)]
 
 
 def o_unsuback(ad, a, b, c):
-    return [("rx", ad, "UNSUBACK", SELS[a % 8], b, c)]
+    return [("rx", ad, "UNSUBACK", SELS2[a % 8], b, c)]
 
 
 def o_ack_any(ad, a, b, c):
     k = ["PUBACK", "PUBREC", "PUBCOMP", "SUBACK", "UNSUBACK"][c % 5]
-    return [("rx", ad, k, SELS[a % 8], b, 0)]
+    return [("rx", ad, k, SELS2[a % 8], b, 0)]
 
 
 def o_ack_good(ad, a, b, c):
